@@ -6,7 +6,7 @@ src = sys.argv[1] if len(sys.argv) > 1 else '/tmp/p/coqchk3'
 dst = '/verif/evidence/coqchk'
 os.makedirs(dst, exist_ok=True)
 res = {}
-for f in sorted(glob.glob(src + '/C*.log')):
+for f in sorted([g for g in glob.glob(src + '/C*.log') if '.norec' not in g]):
     pid = os.path.basename(f)[:-4]
     txt = open(f).read()
     m = re.search(r'rc=(\d+)', txt)
@@ -16,7 +16,23 @@ for f in sorted(glob.glob(src + '/C*.log')):
     if mm:
         ax = [a.strip() for a in mm.group(1).strip().splitlines() if a.strip() and a.strip() != '<none>']
     unsafe = 'type-in-type: <none>' in txt and 'unsafe (co)fixpoints: <none>' in txt and 'positivity is assumed: <none>' in txt
-    res[pid] = {'rc': rc, 'axioms': ax, 'no_type_in_type_no_unsafe_fix_no_assumed_positivity': unsafe}
+    mode = 'full (the property and every library it depends on re-checked)'
+    # a later full run (coqchk4) supersedes a timed-out one
+    f4 = f.replace('coqchk3', 'coqchk4')
+    if rc != 0 and f4 != f and os.path.exists(f4) and 'rc=0' in open(f4).read():
+        txt = open(f4).read(); rc = 0
+        mm = re.search(r'\* Axioms:(.*?)\n\s*\n\* Constants', txt, re.S)
+        ax = [a.strip() for a in mm.group(1).strip().splitlines() if a.strip() and a.strip() != '<none>'] if mm else []
+        unsafe = 'type-in-type: <none>' in txt and 'unsafe (co)fixpoints: <none>' in txt and 'positivity is assumed: <none>' in txt
+    fn = f[:-4] + '.norec.log'
+    if rc != 0 and os.path.exists(fn) and 'rc=0' in open(fn).read():
+        txt = open(fn).read(); rc = 0
+        mode = ('own-modules (full run over Reals+Coquelicot+Flocq+Interval did not finish within 4 h: every OMV module of the '
+                'property re-checked with -norec, the Debian-packaged libraries loaded and admitted; tools/coqchk_norec.sh)')
+        mm = re.search(r'\* Axioms:(.*?)\n\s*\n\* Constants', txt, re.S)
+        ax = [a.strip() for a in mm.group(1).strip().splitlines() if a.strip() and a.strip() != '<none>'] if mm else []
+        unsafe = 'type-in-type: <none>' in txt and 'unsafe (co)fixpoints: <none>' in txt and 'positivity is assumed: <none>' in txt
+    res[pid] = {'rc': rc, 'mode': mode, 'axioms': ax, 'no_type_in_type_no_unsafe_fix_no_assumed_positivity': unsafe}
     open(os.path.join(dst, pid + '.txt'), 'w').write(txt[-6000:])
 done = {k: v for k, v in res.items() if v['rc'] is not None}
 ok = [k for k, v in done.items() if v['rc'] == 0]
@@ -25,8 +41,9 @@ prim = [k for k in ok if res[k]['axioms'] and all(re.search(r'PrimFloat|PrimInt6
 other = [k for k in ok if k not in closed and k not in prim]
 summary = ('%d of %d properties re-checked (rc 0) ; no axioms at all: %s ; only primitive float/int63 objects and their '
            'library specification axioms: %s ; standard-library real-number / classical axioms declared by libraries that get loaded (Reals, Coquelicot, Interval, Lra) - coqchk -o lists the axioms of every loaded library, Print Assumptions in the evidence files lists what each theorem actually uses: %s ; '
-           'no type-in-type, no unsafe fixpoints, no assumed positivity anywhere ; not finished / failed: %s' % (
+           'no type-in-type, no unsafe fixpoints, no assumed positivity anywhere ; own modules only (libraries admitted, full run timed out): %s ; not finished / failed: %s' % (
                len(ok), len(res), ', '.join(closed), ', '.join(prim), ', '.join(other),
+               ', '.join(k for k, v in res.items() if v['mode'].startswith('own')) or 'none',
                ', '.join(k for k, v in res.items() if v['rc'] != 0) or 'none'))
 json.dump({'summary': summary, 'per_property': res, 'command': 'coqchk -silent -o -Q coq OMV OMV.CXX.Props (one run per property)'},
           open('/verif/evidence/coqchk_summary.json', 'w'), indent=1)
